@@ -18,7 +18,7 @@ import (
 func TestMain(m *testing.M) {
 	document.SetGlobalLevel(document.LogLevelSilent)
 	debug.SetGCPercent(400) // the library compiles its regular expressions on every call: mostly short-lived garbage
-	kit.TestMain(m, 10000, 60000)
+	kit.TestMain(m, 15000, 300000)
 }
 
 // openKF: ids listed open: for C16 in KNOWN_FINDINGS.txt (read once; steers which shapes the generator bounds).
